@@ -14,22 +14,28 @@ CONSTANTS NA,         \* atoms are 0..NA-1
           NTopo,      \* atoms 0..NTopo-1 are the PUs of the topology, the others lie outside
           RegMasks,   \* cpusets of registrations, as bit masks over the atoms
           ResMasks,   \* cpusets of restricts
+          NodeMasks,  \* nodesets of restricts (BYNODESET), as bit masks over the atoms: NUMA node n is index n
+          ResFlags,   \* legal flag words of restricts
+          Fams,       \* topology families: sequence of [nodes |-> set of NUMA node indexes, cpus |-> [node -> its local PUs]]
           Forced,     \* forced efficiencies
           InfoArrs,   \* sequence of info arrays (sequences of <<name, value>>); index 0 stands for a NULL pointer
           MaxReg, MaxRes, MaxAux, MaxErr,
           NStripes, Stripe, SimLen
 
-VARIABLES kinds, req, topo, nreg, nres, naux, nerr, hist
+VARIABLES kinds, req, topo, nodes, fam, nreg, nres, naux, nerr, hist
 
 Atoms == 0 .. NA - 1
 RECURSIVE Pow2(_)
 Pow2(n) == IF n = 0 THEN 1 ELSE 2 * Pow2(n - 1)
 MaskSet(m) == IF m < 0 THEN {} ELSE {a \in Atoms : (m \div Pow2(a)) % 2 = 1}
 
-vars == <<kinds, req, topo, nreg, nres, naux, nerr, hist>>
-View == <<kinds, req, topo, nreg, nres, naux, nerr>>
+vars == <<kinds, req, topo, nodes, fam, nreg, nres, naux, nerr, hist>>
+\* the NUMA nodes only matter to a later restrict
+View == <<kinds, req, topo, IF nres < MaxRes THEN nodes ELSE {}, fam, nreg, nres, naux, nerr>>
 
+\* the family (the synthetic topology the behaviour is replayed on) is drawn first and never changes
 Init == /\ kinds = <<>> /\ req = ReqInit(Atoms) /\ topo = 0 .. NTopo - 1
+        /\ fam \in DOMAIN Fams /\ nodes = Fams[fam].nodes
         /\ nreg = 0 /\ nres = 0 /\ naux = 0 /\ nerr = 0 /\ hist = <<>>
 
 \* hwloc_cpukinds_register(), accepted
@@ -41,7 +47,7 @@ Register(m, fe, ia) ==
         /\ req' = ReqRegister(req, S, fe, infos)
   /\ nreg' = nreg + 1
   /\ hist' = Append(hist, <<"register", m, fe, 0, ia>>)
-  /\ UNCHANGED <<topo, nres, naux, nerr>>
+  /\ UNCHANGED <<topo, nodes, fam, nres, naux, nerr>>
 
 \* hwloc_cpukinds_register(), rejected: NULL cpuset (mask -1), empty cpuset (mask 0), non-zero flags
 RegisterBad(m, fl) ==
@@ -49,26 +55,37 @@ RegisterBad(m, fl) ==
   /\ RegisterRejected(MaskSet(m), m = -1, fl)
   /\ nerr' = nerr + 1
   /\ hist' = Append(hist, <<"register", m, 1, fl, 1>>)
-  /\ UNCHANGED <<kinds, req, topo, nreg, nres, naux>>
+  /\ UNCHANGED <<kinds, req, topo, nodes, fam, nreg, nres, naux>>
 
-\* hwloc_topology_restrict(set, 0): EINVAL when nothing would remain, else the kinds are intersected
-Restrict(m) ==
+\* hwloc_topology_restrict(set, f) with a legal flag word: EINVAL when it is refused (nothing would remain), else the PUs that
+\* RestrictOutcome drops leave the topology and the kinds are intersected with what is left.  All PUs and nodes are allowed.
+Restrict(m, f) ==
   /\ nres < MaxRes
-  /\ LET S == MaskSet(m) IN
-       IF S \cap topo = {} THEN UNCHANGED <<kinds, req, topo>>
-       ELSE /\ topo' = topo \cap S
-            /\ kinds' = RestrictDo(kinds, topo')
-            /\ req' = ReqRestrict(req, topo')
+  /\ LET S == MaskSet(m)
+         o == RestrictOutcome(topo, nodes, Fams[fam].cpus, topo, nodes, f, S, S)
+     IN IF RestrictRefused(o) THEN UNCHANGED <<kinds, req, topo, nodes>>
+        ELSE /\ topo' = o.pus
+             /\ nodes' = o.nodes
+             /\ kinds' = RestrictDo(kinds, topo')
+             /\ req' = ReqRestrict(req, topo')
   /\ nres' = nres + 1
-  /\ hist' = Append(hist, <<"restrict", m, 0, 0, 0>>)
-  /\ UNCHANGED <<nreg, naux, nerr>>
+  /\ hist' = Append(hist, <<"restrict", m, 0, f, 0>>)
+  /\ UNCHANGED <<fam, nreg, naux, nerr>>
+
+\* hwloc_topology_restrict() with an illegal flag word: REMOVE_CPULESS by nodeset, REMOVE_MEMLESS by cpuset, unknown bit
+RestrictBad(m, f) ==
+  /\ nerr < MaxErr
+  /\ RestrictBadFlags(f)
+  /\ nerr' = nerr + 1
+  /\ hist' = Append(hist, <<"restrict", m, 0, f, 0>>)
+  /\ UNCHANGED <<kinds, req, topo, nodes, fam, nreg, nres, naux>>
 
 \* hwloc_topology_dup(): v = 0 continue on the copy, v = 1 continue on the original
 Dup(v) ==
   /\ naux < MaxAux
   /\ naux' = naux + 1
   /\ hist' = Append(hist, <<"dup", v, 0, 0, 0>>)
-  /\ UNCHANGED <<kinds, req, topo, nreg, nres, nerr>>
+  /\ UNCHANGED <<kinds, req, topo, nodes, fam, nreg, nres, nerr>>
 
 \* XML export to a buffer and import in a new topology: v = 0 current format, v = 1 v2 format
 Xml(v) ==
@@ -76,7 +93,7 @@ Xml(v) ==
   /\ kinds' = XmlDo(kinds)
   /\ naux' = naux + 1
   /\ hist' = Append(hist, <<"xml", v, 0, 0, 0>>)
-  /\ UNCHANGED <<req, topo, nreg, nres, nerr>>
+  /\ UNCHANGED <<req, topo, nodes, fam, nreg, nres, nerr>>
 
 \* hwloc_topology_refresh(): ranks again
 Refresh ==
@@ -84,14 +101,19 @@ Refresh ==
   /\ kinds' = Rank(kinds)
   /\ naux' = naux + 1
   /\ hist' = Append(hist, <<"refresh", 0, 0, 0, 0>>)
-  /\ UNCHANGED <<req, topo, nreg, nres, nerr>>
+  /\ UNCHANGED <<req, topo, nodes, fam, nreg, nres, nerr>>
 
 BadRegs == {<<-1, 0>>, <<0, 0>>, <<CHOOSE m \in RegMasks : TRUE, 1>>, <<CHOOSE m \in RegMasks : TRUE, 1073741824>>}
+BadRes == {<<CHOOSE m \in NodeMasks : TRUE, R_BYNODESET + R_REMOVE_CPULESS>>, <<CHOOSE m \in ResMasks : TRUE, R_REMOVE_MEMLESS>>,
+           <<CHOOSE m \in ResMasks : TRUE, R_REMOVE_CPULESS + R_REMOVE_MEMLESS>>, <<CHOOSE m \in ResMasks : TRUE, 32>>}
+\* the sets a flag word is tried with
+MasksFor(f) == IF HasBit(f, R_BYNODESET) THEN NodeMasks ELSE ResMasks
 
 \* exhaustive search (SimLen = 0): every step of the alphabet, one TLC action per entry point
 RegisterA    == SimLen = 0 /\ \E m \in RegMasks, fe \in Forced, ia \in 0 .. Len(InfoArrs) : Register(m, fe, ia)
 RegisterBadA == SimLen = 0 /\ \E b \in BadRegs : RegisterBad(b[1], b[2])
-RestrictA    == SimLen = 0 /\ \E m \in ResMasks : Restrict(m)
+RestrictA    == SimLen = 0 /\ \E f \in ResFlags : \E m \in MasksFor(f) : Restrict(m, f)
+RestrictBadA == SimLen = 0 /\ \E b \in BadRes : RestrictBad(b[1], b[2])
 DupA         == SimLen = 0 /\ \E v \in {0, 1} : Dup(v)
 XmlA         == SimLen = 0 /\ \E v \in {0, 1} : Xml(v)
 RefreshA     == SimLen = 0 /\ Refresh
@@ -100,27 +122,29 @@ RefreshA     == SimLen = 0 /\ Refresh
 \* to four successors per state instead of the whole alphabet and registrations do not crowd out the other steps
 SimStep ==
   \/ \E m \in {RandomElement(RegMasks)}, fe \in {RandomElement(Forced)}, ia \in {RandomElement(0 .. Len(InfoArrs))} : Register(m, fe, ia)
-  \/ \E c \in {RandomElement(1 .. 100)} : c <= 45 /\ \E m \in {RandomElement(ResMasks)} : Restrict(m)
+  \/ \E c \in {RandomElement(1 .. 100)} : c <= 45 /\ \E f \in {RandomElement(ResFlags)} : \E m \in {RandomElement(MasksFor(f))} : Restrict(m, f)
   \/ \E c \in {RandomElement(1 .. 100)} : c <= 45 /\ \E v \in {RandomElement(0 .. 4)} :
         \/ v \in {0, 1} /\ Dup(v)
         \/ v \in {2, 3} /\ Xml(v - 2)
         \/ v = 4 /\ Refresh
   \/ \E c \in {RandomElement(1 .. 100)} : c <= 12 /\ \E b \in {RandomElement(BadRegs)} : RegisterBad(b[1], b[2])
+  \/ \E c \in {RandomElement(1 .. 100)} : c <= 6 /\ \E b \in {RandomElement(BadRes)} : RestrictBad(b[1], b[2])
 SimA == SimLen > 0 /\ Len(hist) < SimLen /\ SimStep
 \* a walk stops at SimLen steps; its history is printed once, when TLC asks for the successors of its last state
-SimEndA == SimLen > 0 /\ Len(hist) = SimLen /\ PrintT(<<"SIM", ToJson(hist)>>) /\ FALSE /\ UNCHANGED vars
+SimEndA == SimLen > 0 /\ Len(hist) = SimLen /\ PrintT(<<"SIM", ToJson(<<fam>> \o hist)>>) /\ FALSE /\ UNCHANGED vars
 
-Next == RegisterA \/ RegisterBadA \/ RestrictA \/ DupA \/ XmlA \/ RefreshA \/ SimA \/ SimEndA
+Next == RegisterA \/ RegisterBadA \/ RestrictA \/ RestrictBadA \/ DupA \/ XmlA \/ RefreshA \/ SimA \/ SimEndA
 
 Spec == Init /\ [][Next]_vars
 
 ----------------------------------------------------------------------------
 \* the property, on the model
-TypeOK == /\ topo \subseteq Atoms
+TypeOK == /\ topo \subseteq Atoms /\ topo # {}
+          /\ nodes \subseteq Fams[fam].nodes /\ nodes # {}
           /\ \A i \in DOMAIN kinds : kinds[i].cs \subseteq Atoms /\ kinds[i].forced >= Unknown
 PropertyHolds == KindsOK(Proj(kinds), req)
-LookupHolds == \A m \in 0 .. Pow2(NA) - 1 :
-                  LET r == GbcDo(kinds, MaskSet(m)) IN GbcRel(Proj(kinds), MaskSet(m), r[1], r[2])
+LookupHolds == LET pk == Proj(kinds) IN
+               \A S \in SUBSET Atoms : LET r == GbcDo(kinds, S) IN GbcRel(pk, S, r[1], r[2])
 \* model-level expectations (not part of the oracle): an XML round trip and a refresh do not change what is observable
 XmlStable == Proj(XmlDo(kinds)) = Proj(kinds)
 RankStable == Proj(Rank(kinds)) = Proj(kinds)
@@ -130,5 +154,5 @@ RankStable == Proj(Rank(kinds)) = Proj(kinds)
 RECURSIVE HSum(_)
 HSum(h) == IF h = <<>> THEN 0
            ELSE LET o == Head(h) IN (Len(o[1]) + 7 * (o[2] + 1) + 3 * (o[3] + 8) + 5 * (o[4] % 1000) + 11 * o[5] + 3 * HSum(Tail(h))) % 1000003
-EmitEdge == (HSum(hist') % NStripes = Stripe) => PrintT(<<"EDGE", ToJson(hist')>>)
+EmitEdge == ((HSum(hist') + fam) % NStripes = Stripe) => PrintT(<<"EDGE", ToJson(<<fam>> \o hist')>>)
 =============================================================================
